@@ -107,6 +107,18 @@ func (w *World) findProcRoles() *procRoles {
 	if pr.restartFn == nil {
 		bad("no restart function (method of process called from a recover handler that calls Start)")
 	}
+	if len(pr.problems) == 0 {
+		rn := map[string]string{pr.start.Name(): "Start", pr.invoke.Name(): "Invoke", pr.shutdown.Name(): "Shutdown",
+			pr.stopFn.Name(): "stop", pr.restartFn.Name(): "restart", pr.deliverFn.Name(): "deliver"}
+		for _, rf := range pr.recovers {
+			if p := rf.Parent(); p != nil {
+				if host, ok := rn[p.Name()]; ok {
+					rn[rf.Name()] = host + "$recover"
+				}
+			}
+		}
+		pr.lta.roleName = rn
+	}
 	return pr
 }
 
@@ -1139,11 +1151,7 @@ func checkC07(w *World, r *Report) {
 }
 
 func reachFromEdges(g *FG, es []Edge, avoid []bool) []bool {
-	var starts []int
-	for _, e := range es {
-		starts = append(starts, e.to)
-	}
-	return g.reach(starts, avoid, nil)
+	return g.reachFromEdgesCorr(es, avoid)
 }
 
 // mustCallOnExit: on every entry->return path (not crossing cut edges) a matching call is executed
